@@ -297,8 +297,10 @@ def sample(ctx, budget=1.0, hint=None, broken=None):
             return
         xs, ys = pts.real, pts.imag
         size = max(xs.max() - xs.min(), ys.max() - ys.min(), 1e-300)
+        # relative to the size of the curve, plus what the rounding of the coordinates themselves does to an extremum found from
+        # DIFFERENCES of coordinates (a curve of size 2e-4 sitting at 3000 has lost seven digits before anything is computed)
         scale = size + max(abs(xs).max(), abs(ys).max()) * 1e-7
-        tol = 1e-9 * scale
+        tol = 1e-9 * scale + 1e4 * 2.0 ** -52 * max(abs(xs).max(), abs(ys).max())
         rep = (rep0 if rep0 is not None else 'svgpathtools.%s.bbox()' % desc)
         if xs.min() < xmin - tol or xs.max() > xmax + tol or ys.min() < ymin - tol or ys.max() > ymax + tol:
             i = int(np.argmax(np.maximum.reduce([xmin - xs, xs - xmax, ymin - ys, ys - ymax])))
